@@ -463,12 +463,16 @@ func checkWebResponse(res *Result, c *churn, r *webReq, w *httptest.ResponseReco
 	// path guessing is not something a request can turn off: standard-library frames are classed as such
 	// whatever the parameters, and the bucket whose frames are all standard library (io.Copy on a pipe)
 	// comes after the buckets with code of this program (C13's contract, end to end)
-	if !strings.Contains(body, `class="FuncStdlib`) {
-		res.violation(mk("classes", "no frame of the page is classed as standard library"))
-		f := mk("classes", "no frame of the page is classed as standard library: the ordering contract has nothing to go by")
-		f.Property = "C13"
-		res.violation(f)
-		return
+	if i := strings.Index(body, "(*pipe).read</a>"); i >= 0 {
+		seg := body[max(0, i-300):i]
+		if j := strings.LastIndex(seg, `class="`); j >= 0 && !strings.HasPrefix(seg[j:], `class="FuncStdlib`) {
+			cl := seg[j:min(len(seg), j+40)]
+			res.violation(mk("classes", "the frame io.(*pipe).read is not classed as standard library: "+cl))
+			f := mk("classes", "the frame io.(*pipe).read is not classed as standard library ("+cl+"): the ordering contract has nothing to go by")
+			f.Property = "C13"
+			res.violation(f)
+			return
+		}
 	}
 	if iStd, iMain := strings.Index(body, "(*pipe).read</a>"), strings.Index(body, "churnString</a>"); iStd >= 0 && iMain >= 0 {
 		res.count("stdlib_bucket_order_checked", 1)
